@@ -5,7 +5,7 @@ boolean checkers used by the counterexample theorems.
 -/
 import CV.Proofs.StreamMono
 import CV.Proofs.StreamGuard
-import CV.Proofs.StreamFaithful
+import CV.Proofs.StreamFaithReg
 namespace CV.Stream
 
 /-! ## Statements -/
@@ -111,6 +111,35 @@ theorem indexSound_cfgSet (c : Cat) (idx : Nat) (n : String) (v : Nat) (h : c.cf
   intro k
   obtain ⟨t, sj⟩ := k
   cases t <;> cases sj <;> simp_all [applyWrite, queryIdx, absentIdx, svcIndexOr, evsFor, wildOf]
+
+/-! ## Clean schedules with the syntactic write condition -/
+
+/-- `CleanAct` with the semantic hypothesis `Faithful` replaced by the syntactic `CleanWrite` -/
+def CleanActS (y : Sys) : Act → Prop
+  | .commit idx w => y.lastIdx < idx ∧ CleanWrite y.cat w
+  | a => CleanAct y a
+
+def CleanRunS (y : Sys) : List Act → Prop
+  | [] => True
+  | a :: r => CleanActS y a ∧ CleanRunS (step y a) r
+
+theorem CleanActS.clean {y : Sys} (h : Inv y) {a : Act} (hc : CleanActS y a) : CleanAct y a := by
+  cases a with
+  | commit idx w => exact ⟨hc.1, faithful_of_cleanWrite h.wf idx w hc.2⟩
+  | client id k t r => exact hc
+  | publishOne => exact hc
+  | subscribe id => exact hc
+  | next id => exact hc
+  | unsub id => exact hc
+  | expire => exact hc
+  | restore c => exact hc
+
+theorem CleanRunS.clean {y : Sys} (h : Inv y) {acts : List Act} (hc : CleanRunS y acts) : CleanRun y acts := by
+  induction acts generalizing y with
+  | nil => trivial
+  | cons a r ih =>
+    have ha := hc.1.clean h
+    exact ⟨ha, ih (h.step a ha) hc.2⟩
 
 /-! ## Boolean checkers implied by the propositions (used to refute them on concrete runs) -/
 
